@@ -82,7 +82,7 @@ func emit(lg *zerolog.Logger, kind string, t, i int) {
 
 // scenario name: <logger>/<writer>/<thread kinds ;-separated, events ,-separated>
 //
-//	logger: shared | children | global | hooked | discarding (a hook discards the "drop" events) | derived (children built by the goroutines themselves)
+//	logger: shared | children | global | sharedctx (one logger WITH context fields for all goroutines) | hooked | discarding (a hook discards the "drop" events) | derived (children built by the goroutines themselves)
 //	writer: plain | sync | console
 type params struct {
 	logger, writer string
@@ -196,8 +196,11 @@ func buildLoggers(p params, w io.Writer) (lgs []zerolog.Logger, derive func(i in
 	if p.logger == "derived" {
 		root = root.Hook(addHook{}).Hook(tagHook{-1}).Hook(tagHook{-2}).With().Str("parent", "ctx").Logger()
 	}
+	rootCtx := root.With().Str("svc", "api").Int("n", 7).Logger()
 	derive = func(i int) zerolog.Logger {
 		switch p.logger {
+		case "sharedctx": // ONE logger with context fields, used by every goroutine (its context bytes are read by all)
+			return rootCtx
 		case "children":
 			return root.With().Int("child", i).Logger()
 		case "hooked":
@@ -390,6 +393,8 @@ func plans(tier string) []drv.Plan {
 	add("hooked/plain/tiny,tiny;nested", b2)
 	add("global/plain/tiny;tiny;tiny", b2)
 	add("derived/plain/tiny,tiny;tiny", b2)
+	add("sharedctx/plain/tiny,nested;tiny", b2)
+	add("sharedctx/sync/fields;tiny,tiny", b2)
 	add("shared/plain/marsh,nested;nested", b2)
 	add("children/plain/marsh;marsh,nested", b2)
 	add("shared/plain/scratch;scratch", 3)
